@@ -78,7 +78,7 @@ theorem SliceLossIndication.dec_safe (b : Bytes) : (SliceLossIndication.dec b).S
         apply safe_bind
         · apply decSLIs_safe
           · lomega
-          · by_cases hc : 4 * hd.length % 65536 ≥ 8
+          · by_cases hc : 4 * hd.length ≥ 8
             · left; lomega
             · right; lomega
           · lomega
@@ -120,7 +120,7 @@ theorem FullIntraRequest.dec_safe (b : Bytes) : (FullIntraRequest.dec b).Safe :=
           apply safe_bind
           · apply decFIRs_safe
             · lomega
-            · by_cases hc : 4 * hd.length % 65536 ≥ 8
+            · by_cases hc : 4 * hd.length ≥ 8
               · left; lomega
               · right; lomega
             · lomega
